@@ -52,9 +52,9 @@ def subsets(names, maxsize):
         yield from itertools.combinations(names, r)
 
 
-def compare(scn, F, behX, stats):
+def compare(scn, F, behX, stats, raise_out='raise'):
     """-> (violations, capped, nontrivial)"""
-    XF = gen.apply_mods(scn, [(j, 'out', 'raise') for j in F])
+    XF = gen.apply_mods(scn, [(j, 'out', raise_out) for j in F])
     behF, capF, mv = rel.behaviours(XF, CAP, stats, monitor=post_exc(F))
     viols = []
     for key, msg, ex in mv:
@@ -63,7 +63,7 @@ def compare(scn, F, behX, stats):
                              % (msg, gen.short(XF), ex.choices),
                       'replay': {'engine': 'mc-rel', 'scenario': scn,
                                  'scenario_short': gen.short(scn),
-                                 'F': list(F)}})
+                                 'F': list(F), 'raise_out': raise_out}})
     if capF:
         return viols, True, False
     A = {}
@@ -101,6 +101,7 @@ def compare(scn, F, behX, stats):
                       gen.short(scn)),
             'replay': {'engine': 'mc-rel', 'scenario': scn,
                        'scenario_short': gen.short(scn), 'F': list(F),
+                       'raise_out': raise_out,
                        'witness_side': side, 'witness_choices': wit}})
     return viols, False, nontriv
 
@@ -120,7 +121,8 @@ def run_item(item):
             res['capped'] += 1
             continue
         for F in subsets(cands, maxF):
-            viols, capped, nontriv = compare(scn, F, behX, stats)
+            viols, capped, nontriv = compare(scn, F, behX, stats,
+                                             item.get('raise_out', 'raise'))
             res['scenarios'] += 1
             if capped:
                 res['capped'] += 1
@@ -149,7 +151,8 @@ def run_item(item):
 def replay(rep):
     stats = X.Stats()
     behX, capX, _ = rel.behaviours(rep['scenario'], CAP, stats)
-    viols, capped, _ = compare(rep['scenario'], tuple(rep['F']), behX, stats)
+    viols, capped, _ = compare(rep['scenario'], tuple(rep['F']), behX, stats,
+                               rep.get('raise_out', 'raise'))
     return sorted(v['msg'] for v in viols)
 
 
@@ -158,7 +161,8 @@ def describe(rep):
     if 'witness_choices' in rep:
         scn = rep['scenario']
         if rep['witness_side'] == 'raising':
-            scn = gen.apply_mods(scn, [(j, 'out', 'raise') for j in rep['F']])
+            scn = gen.apply_mods(scn, [(j, 'out', rep.get('raise_out', 'raise'))
+                                       for j in rep['F']])
         ex = scen.run_one(scn, rep['witness_choices'], drain=False)
         out.append("witness execution of the %s twin (no counterpart in the "
                    "other twin's behaviour set):" % rep['witness_side'])
@@ -180,6 +184,22 @@ def items(tier, seed):
                          top_open={'timeout': [2, 3], 'k': ['nest']},
                          nest_open={}, extra=_base.X_THASH,
                          k=2 if th else 1)
+    # every assignment of return / raise / critical raise to the jobs (ties
+    # between a critical and a non-critical failure), F among the returning
+    # non-critical ones
+    yield from spaces.mk(['flat23'], force='product',
+                         fargs={'parts': [('outcomes', {}),
+                                          ('windows', {'values': [None, 1],
+                                                       'allow_none': True})]},
+                         job_open={'dur': [2]}, top_open={'k': ['nest']},
+                         nest_open={}, k=1 if th else 0, maxF=2)
+    # verbose schedulers, exceptions whose message is empty
+    yield from spaces.mk(['flat23', 'nest22'], force='mods',
+                         fargs={'alts': [[('top', 'verbose', True)],
+                                         [('top', 'verbose', True),
+                                          ('n', 'verbose', True)]]},
+                         job_open={'dur': [2]}, top_open={'window': [1]},
+                         nest_open={}, k=1, maxF=2, raise_out='raise_empty')
     yield from spaces.mk(['flat4'], th, force='product',
                          fargs={'parts': [
                              ('mods', {'alts': [
